@@ -7,7 +7,7 @@ from bsv.props._x1 import spec
 ID = "C09"
 LEVEL = "model_checking"
 RULE = (
-    "X1: plans with checkpoints at spacing s in 1..4 over 6 tagged messages plus a checkpoint-free tail (scenario cpspace), "
+    "X1: plans with checkpoints at spacing s in 1..4 over 6 tagged messages plus a checkpoint-free tail (scenario cpspace; also with rewindable switched off for the whole body), "
     "count2/scan2/tiny from the corpus; a deferred pause requested at every loop position (thorough: plus any second request "
     "during the 0.5 s grace sleep, bound 2). Oracle per accepted request: message trace up to and including the next checkpoint "
     "equals the reference trace, no message executes between that checkpoint and the 'paused' state, "
@@ -23,10 +23,12 @@ DS = [("dpause",), ("suspend", "none"), ("@once", "dpause", "suspend")]  # one d
 SECOND = [("dpause",), ("pause",), ("abort",), ("suspend", "none")]
 SPECS = {
     "quick": [spec("cpspace", D, bound=1, s=s) for s in (1, 2, 3, 4)] + [spec("cpspace", D, bound=1, s=7, tail=0)] + [spec(k, D, bound=1) for k in ("count2", "scan2", "tiny")]
-    + [spec("cpspace", DS, bound=2, s=2, n=4, tail=1)],
+    + [spec("cpspace", DS, bound=2, s=2, n=4, tail=1)]
+    + [spec("cpspace", D, bound=1, s=s, nr=1) for s in (2, 3)],  # the same with rewindable switched off for the whole body
     "thorough": [spec("cpspace", D, bound=1, s=s, n=8, tail=t) for s in (1, 2, 3, 4, 9) for t in (0, 2)]
     + [spec(k, D, bound=1, a=a) for k in ("count2", "scan2", "tiny", "grid22s", "nested") for a in (0, 1)]
     + [spec("cpspace", SECOND, bound=2, s=2, n=4, tail=1)]
+    + [spec("cpspace", D, bound=1, s=s, n=8, tail=t, nr=1) for s in (1, 2, 3, 4) for t in (0, 2)]
     + [spec(k, DS, bound=2, **kw) for k, kw in (("cpspace", {"s": 3, "n": 6, "tail": 2}), ("count2", {}), ("tiny", {"a": 1}))],
 }
 
